@@ -23,3 +23,9 @@ add("C17", "fault_enumeration",
     "Trusted: TLC, scripted in-memory socket, stepping loop. A transport that failed once stays failed (recv and send).",
     "TLA+ API-contract spec model-checked by TLC + exhaustive fault injection with TLC trace validation",
     "tla-connlife")
+add("C13", "model_checking",
+    "Resumption.tla states when a stored session may be resumed (completed, not invalidated, not expired, right provenance, consistent ClientHello; RFC 5077/7627/8446 rules) and what the resumed connection inherits. TLC enumerates ALL histories of <=4 (thorough <=5) events per mechanism (session ID, TLS<=1.2 ticket, TLS 1.3 PSK ticket) over connect(ClientHello variant)/close(clean|fatal|abrupt)/expire(server|both clocks)/rotate(keep|drop old key)/flush cache/tamper, checks the rule properties on the model and emits each history with per-connection predictions; every maximal history is replayed with live endpoints under a virtual clock (per-endpoint skew) and the outcome (completed, resumed on the wire, inherited suite/EMS/EtM/SNI) compared.",
+    "DESIGN.md section 5 C13, section 3.4, Appendix F.2",
+    "Trusted: TLC, virtual clock, wire-level detection of resumption (server sent no Certificate). A laxer client is emulated for SNI/suite-inconsistent offers in TLS<=1.2 (tlslite's own client API refuses them with ValueError).",
+    "TLA+ history model + TLC-enumerated histories replayed into live connections (spec->code)",
+    "tla-resumption")
